@@ -89,6 +89,8 @@ void NiString::Read(NiIStream& stream, const int szSize) {
 void NiString::Write(NiOStream& stream, const int szSize) {
 	if (szSize == 1) {
 		auto sz = uint8_t(str.length());
+		if (nullOutput && sz == std::numeric_limits<uint8_t>::max())
+			sz--; // the length prefix also counts the null byte
 		str.resize(sz);
 
 		if (nullOutput)
@@ -98,6 +100,8 @@ void NiString::Write(NiOStream& stream, const int szSize) {
 	}
 	else if (szSize == 2) {
 		auto sz = uint16_t(str.length());
+		if (nullOutput && sz == std::numeric_limits<uint16_t>::max())
+			sz--; // the length prefix also counts the null byte
 		str.resize(sz);
 
 		if (nullOutput)
@@ -107,6 +111,8 @@ void NiString::Write(NiOStream& stream, const int szSize) {
 	}
 	else if (szSize == 4) {
 		auto sz = uint32_t(str.length());
+		if (nullOutput && sz == std::numeric_limits<uint32_t>::max())
+			sz--; // the length prefix also counts the null byte
 		str.resize(sz);
 
 		if (nullOutput)
